@@ -77,6 +77,26 @@ def run(coro):
     return result
 
 
+def _timed():
+    """True inside wait_for(..., timeout): a wait that cannot complete may end with TimeoutError instead."""
+    return bool(_rt().current_ctx().extra.get('aio_timeout'))
+
+
+async def wait_for(aw, timeout):
+    """asyncio.wait_for for awaitables of this model: the blocking primitive reached inside `aw` becomes a timed wait (it
+    may time out whenever it cannot complete — time is abstract).  A timed-out queue get / stream read consumes nothing,
+    as cancelling the real operation does.  (Awaiting a Task with a timeout would also have to cancel it: not modelled.)"""
+    if timeout is None:
+        return await aw
+    ctx = _rt().current_ctx()
+    prev = ctx.extra.get('aio_timeout')
+    ctx.extra['aio_timeout'] = True
+    try:
+        return await aw
+    finally:
+        ctx.extra['aio_timeout'] = prev
+
+
 def _suspend_begin():
     loop_token().release()
 
@@ -128,7 +148,14 @@ class AQueue:
         except _q.Empty:
             pass
         _suspend_begin()
-        v = self._q.get(True)
+        if _timed():
+            try:
+                v = self._q.get(True, 1)
+            except _q.Empty:
+                _suspend_end()
+                raise TimeoutError() from None
+        else:
+            v = self._q.get(True)
         _suspend_end()
         return v
 
@@ -209,6 +236,8 @@ class AFuture:
             return self._f.result()
         _suspend_begin()
         try:
+            if _timed() and not isinstance(self, ATask):
+                return self._f.result(1)   # may raise TimeoutError
             return self._f.result()
         finally:
             _suspend_end()
@@ -285,6 +314,129 @@ def create_task(coro, *, name=None):
     return ATask(coro, name)
 
 
+async def gather(*aws, return_exceptions=False):
+    ts = [a if isinstance(a, AFuture) else ATask(a) for a in aws]
+    out = []
+    for t in ts:
+        try:
+            out.append(await t)
+        except Abort:
+            raise
+        except Exception as e:
+            if not return_exceptions:
+                raise
+            out.append(e)
+    return out
+
+
+# ---- byte streams ---------------------------------------------------------------------------------------------------
+_EOF = ('$stream-eof',)
+IncompleteReadError = _real_asyncio.IncompleteReadError
+
+
+class Wire:
+    """One direction of a connection: an unbounded FIFO of the chunks written (a thread-safe queue, so the two ends may
+    live in different loops / processes)."""
+
+    def __init__(self):
+        self.q = SQueue(0)
+
+
+class AStreamWriter:
+    """asyncio.StreamWriter: write() buffers without blocking; drain() does not suspend (true below the transport's
+    high-water mark, 64 KiB); close() delivers end-of-file to the peer."""
+
+    def __init__(self, wire):
+        self._wire = wire
+        self._closed = False
+
+    def write(self, data):
+        if self._closed:
+            raise RuntimeError('write after close')
+        self._wire.q.put(bytes(data))
+
+    async def drain(self):
+        return None
+
+    def close(self):
+        if not self._closed:
+            self._closed = True
+            self._wire.q.put(_EOF)
+
+    def is_closing(self):
+        return self._closed
+
+    async def wait_closed(self):
+        return None
+
+    def get_extra_info(self, name, default=None):
+        return 'peer'
+
+
+class AStreamReader:
+    """asyncio.StreamReader over a Wire.  The buffer is local to the (single) reading task."""
+
+    def __init__(self, wire):
+        self._wire = wire
+        self._buf = b''
+        self._eof = False
+
+    async def _more(self):
+        if self._eof:
+            return False
+        q = self._wire.q
+        try:
+            x = q.get(False)
+        except _q.Empty:
+            _suspend_begin()
+            if _timed():
+                try:
+                    x = q.get(True, 1)
+                except _q.Empty:
+                    _suspend_end()
+                    raise TimeoutError() from None
+            else:
+                x = q.get(True)
+            _suspend_end()
+        if isinstance(x, tuple) and x == _EOF:
+            self._eof = True
+            return False
+        self._buf += x
+        return True
+
+    async def readuntil(self, separator=b'\n'):
+        while True:
+            k = self._buf.find(separator)
+            if k >= 0:
+                out, self._buf = self._buf[:k + len(separator)], self._buf[k + len(separator):]
+                return out
+            if not await self._more():
+                part, self._buf = self._buf, b''
+                raise IncompleteReadError(part, None)
+
+    async def readexactly(self, n):
+        while len(self._buf) < n:
+            if not await self._more():
+                part, self._buf = self._buf, b''
+                raise IncompleteReadError(part, n)
+        out, self._buf = self._buf[:n], self._buf[n:]
+        return out
+
+    async def read(self, n=-1):
+        if not self._buf and not await self._more():
+            return b''
+        if n < 0:
+            n = len(self._buf)
+        out, self._buf = self._buf[:n], self._buf[n:]
+        return out
+
+
+def connection():
+    """Two connected (reader, writer) pairs: ((reader_a, writer_a), (reader_b, writer_b)); what a writes, b reads."""
+    ab, ba = Wire(), Wire()
+    return (AStreamReader(ba), AStreamWriter(ab)), (AStreamReader(ab), AStreamWriter(ba))
+
+
 class _Loop:
     def create_task(self, coro, *, name=None):
         return ATask(coro, name)
@@ -306,5 +458,6 @@ fake_asyncio = types.SimpleNamespace(
     Queue=AQueue, Event=AEvent, Future=AFuture, Task=ATask, create_task=create_task, sleep=sleep,
     get_running_loop=get_running_loop, get_event_loop=get_event_loop, CancelledError=CancelledError,
     TimeoutError=TimeoutError, InvalidStateError=InvalidStateError, QueueEmpty=QueueEmpty, QueueFull=QueueFull,
+    wait_for=wait_for, gather=gather, IncompleteReadError=IncompleteReadError,
     run=run, iscoroutinefunction=_real_asyncio.iscoroutinefunction, iscoroutine=_real_asyncio.iscoroutine,
 )
